@@ -621,3 +621,51 @@ fn create_file_step() {
     kani::cover!(!existing);
 }
 }
+
+/// C17/C08 (concrete pattern of the step above, cheap): a complete one-slot long-name run, then a DELETED short entry
+/// (or a volume label), then a live short entry whose name has the run's checksum. The run belonged to the deleted
+/// entry: the live entry must be returned WITHOUT a long name, and its slot range must start behind the skipped slot.
+#[cfg(all(feature = "lfn", not(feature = "alloc")))]
+fn diriter_run_cut_check(label: bool) {
+    let g = geo();
+    let mut dir = [0u8; DIRW];
+    let units: [u8; 26] = kani::any();
+    let sfn: [u8; 11] = kani::any();
+    kani::assume(sfn[0] != 0 && sfn[0] != 0xE5);
+    let sum = crate::verif_support::spec::lfn_checksum(&sfn);
+    // slot 0: long-name slot, order 1 | last flag, checksum of the LIVE entry's name (as after delete + re-create with the same 8.3 name)
+    dir[0] = 0x41; dir[11] = 0x0F; dir[13] = sum;
+    let mut i = 0;
+    while i < 13 {
+        let o = crate::verif_support::spec::LFN_UNIT_OFFSETS[i];
+        dir[o] = units[2 * i]; dir[o + 1] = units[2 * i + 1];
+        i += 1;
+    }
+    // slot 1: deleted short entry / volume label
+    if label { dir[32] = b'L'; dir[32 + 11] = 0x08; } else { dir[32] = 0xE5; dir[32 + 11] = 0x20; }
+    // slot 2: live short entry
+    i = 0;
+    while i < 11 { dir[64 + i] = sfn[i]; i += 1; }
+    dir[64 + 11] = 0x20;
+    let dev = mk_dev(dir);
+    let fs = ManuallyDrop::new(mk_fs_plain(dev, &g, NullTimeProvider::new(), false));
+    let root = ManuallyDrop::new(fs.root_dir());
+    let mut it = ManuallyDrop::new(root.iter());
+    match it.next() {
+        Some(Ok(e)) => {
+            let e = ManuallyDrop::new(e);
+            assert!(e.entry_pos == g.root_base() + 64);
+            assert!(e.long_file_name_as_ucs2_units().is_none());
+            assert!(e.offset_range.0 == 64 && e.offset_range.1 == 96);
+        }
+        _ => assert!(false),
+    }
+}
+#[cfg(all(feature = "lfn", not(feature = "alloc")))]
+#[kani::proof]
+#[kani::unwind(264)]
+fn diriter_run_cut_by_deleted() { diriter_run_cut_check(false); }
+#[cfg(all(feature = "lfn", not(feature = "alloc")))]
+#[kani::proof]
+#[kani::unwind(264)]
+fn diriter_run_cut_by_label() { diriter_run_cut_check(true); }
